@@ -362,6 +362,9 @@ type interp struct {
 	notes     []string
 	roundIDs  int
 	curAssign *ast.AssignStmt
+	// inlineAll interprets every package function that is neither an intrinsic nor denied.
+	inlineAll bool
+	noInline  []string // name prefixes never inlined
 }
 
 func newInterp(p *Prog) *interp {
@@ -1678,7 +1681,19 @@ func (in *interp) evalCall(call *ast.CallExpr, st *state) []AV {
 			return res
 		}
 	}
-	if in.inline[name] && in.depth < in.maxDepth {
+	doInline := in.inline[name]
+	if !doInline && in.inlineAll && name != "" && !strings.Contains(name, "/") && !strings.HasPrefix(name, "builtin.") && !strings.HasPrefix(name, "unsafe.") {
+		doInline = true
+		for _, pre := range in.noInline {
+			if strings.HasPrefix(name, pre) {
+				doInline = false
+			}
+		}
+		if fn := p.callee(call); fn == nil || fn.Pkg() != p.Pkg.Types {
+			doInline = false
+		}
+	}
+	if doInline && in.depth < in.maxDepth {
 		if fd := p.Funcs[name]; fd != nil && fd.Body != nil {
 			key := name + "|"
 			if recv != nil {
